@@ -16,8 +16,10 @@ from py2coq_sd import Unsupported, fail, COQ_TY, DFLT
 REPO = os.environ.get("VERIF_REPO", "/repo")
 OUTDIR = SD.OUTDIR
 COQ_TY.update({"optbit": "(option bool)", "bdd": "unit", "bit": "bool", "ldois": "(list (nat * bool * space))", "optldois": "(option (list (nat * bool * space)))",
-               "pairset": "(list (nat * bool))", "pair": "(nat * bool)"})
-DFLT.update({"optbit": "(@None bool)", "bdd": "Datatypes.tt", "bit": "false", "ldois": "(@nil (nat * bool * space))", "pairset": "(@nil (nat * bool))"})
+               "pairset": "(list (nat * bool))", "pair": "(nat * bool)", "strategy": "bool", "ctllist": "(list (list space))", "optvarset": "(option (list nat))",
+               "spacelist": "(list space)", "natlistlist": "(list (list nat))", "bitlist": "(list bool)", "bitlistlist": "(list (list bool))",
+               "optspace": "(option space)"})
+DFLT.update({"optbit": "(@None bool)", "bdd": "Datatypes.tt", "bit": "false", "ldois": "(@nil (nat * bool * space))", "pairset": "(@nil (nat * bool))", "ctllist": "(@nil (list space))"})
 
 FUNCS = [
     dict(name="percolate_space_strict", path="biobalm/space_utils.py", args=[("space", "space")], ret="space",
@@ -32,6 +34,16 @@ FUNCS = [
     dict(name="find_single_drivers", path="biobalm/drivers.py", group="drivers", args=[("target_subspace", "space"), ("LDOIs", "optldois")], ret="pairset",
          defaults={"LDOIs": None}, arg_order=["target_subspace", "network", "LDOIs"],
          locs={"drivers": "pairset"}, loopvars={"fix": "pair", "LDOI": "space"}, fuels=[], rename={"fix": "fix_"}),
+    dict(name="find_drivers", path="biobalm/control.py", group="control", netname="bn",
+         args=[("target_trap_space", "space"), ("strategy", "strategy"), ("assume_fixed", "optspace"), ("max_drivers_per_succession_node", "optnat"), ("forbidden_drivers", "optvarset")],
+         ret="spacelist", defaults={"strategy": "internal", "assume_fixed": None, "max_drivers_per_succession_node": None, "forbidden_drivers": None},
+         arg_order=["bn", "target_trap_space", "strategy", "assume_fixed", "max_drivers_per_succession_node", "forbidden_drivers"],
+         locs={"target_trap_space_inner": "space", "driver_pool": "natset", "drivers": "spacelist", "driver_dict": "space", "ldoi": "space"},
+         loopvars={"driver_set_size": "nat", "driver_set": "natlist", "vals": "bitlist"}, fuels=[], rename={}),
+    dict(name="drivers_of_succession", path="biobalm/control.py", group="control", netname="bn",
+         args=[("succession", "spacelist"), ("strategy", "strategy"), ("max_drivers_per_succession_node", "optnat"), ("forbidden_drivers", "optvarset")], ret="ctllist",
+         defaults={"strategy": "internal", "max_drivers_per_succession_node": None, "forbidden_drivers": None}, arg_order=["bn", "succession", "strategy", "max_drivers_per_succession_node", "forbidden_drivers"],
+         locs={"control_strategies": "ctllist", "assume_fixed": "space", "ldoi": "space"}, loopvars={"ts": "space"}, fuels=[], rename={}),
 ]
 
 class Fn(SD.Fn):
@@ -41,11 +53,13 @@ class Fn(SD.Fn):
         self.rename = spec.get("rename", {})
 
     def is_net(self, e):
-        return isinstance(e, ast.Name) and e.id == "network"
+        return isinstance(e, ast.Name) and e.id == self.spec.get("netname", "network")
 
     def expr(self, e, want=None):
         if isinstance(e, ast.Name) and e.id in self.rename and e.id in self.env:
             return (self.rename[e.id], False, self.env[e.id])
+        if isinstance(e, ast.List) and not e.elts and want == "ctllist":
+            return ("(@nil (list space))", False, "ctllist")
         if isinstance(e, ast.Dict) and not e.keys and want == "ldois":
             return ("(@nil (nat * bool * space))", False, "ldois")
         if isinstance(e, ast.Dict) and not e.keys and want == "space":
@@ -83,6 +97,85 @@ class Fn(SD.Fn):
                 if f.id == "percolate_space":
                     return (f"(percolate_b N {s_[0]})", False, "space")        # AEON's Percolation (engine contract, C11 model)
                 return (f"(py_percolate_space_strict N {s_[0]})", True, "space")  # the function translated above (None: it raised)
+        if isinstance(e, ast.Call) and isinstance(e.func, ast.Name) and e.func.id == "cast" and len(e.args) == 2 and not e.keywords:
+            return self.expr(e.args[1], want)                                  # typing.cast is the identity
+        if isinstance(e, ast.Compare) and len(e.ops) == 1 and isinstance(e.ops[0], ast.Eq) and isinstance(e.left, ast.Name) and self.env.get(e.left.id) == "strategy" \
+                and isinstance(e.comparators[0], ast.Constant) and e.comparators[0].value in ("internal", "all"):
+            return (f"(negb {e.left.id})" if e.comparators[0].value == "internal" else e.left.id, False, "bool")
+        if isinstance(e, ast.BinOp) and isinstance(e.op, ast.Sub) and isinstance(e.left, ast.Call) and isinstance(e.left.func, ast.Name) and e.left.func.id == "set" \
+                and len(e.left.args) == 1 and not e.left.keywords:
+            a, b = self.expr(e.left.args[0]), self.expr(e.right)               # set(X) - F
+            keys = f"(vars_fixed {a[0]})" if a[2] == "space" else (a[0] if a[2] == "natlist" else None)
+            if keys is None or b[2] != "natset" or a[1] or b[1]: fail(e, "set difference")
+            return (f"(filter (fun v_ => negb (mem_nat v_ {b[0]})) {keys})", False, "natset")
+        if isinstance(e, ast.Call) and isinstance(e.func, ast.Name) and e.func.id == "range" and len(e.args) == 1 and not e.keywords:
+            a = self.expr(e.args[0])
+            if a[2] != "nat": fail(e, "range")
+            return self.map1(a, lambda x: f"(seq 0 {x})", "natlist")
+        if isinstance(e, ast.Call) and isinstance(e.func, ast.Name) and e.func.id == "combinations" and len(e.args) == 2 and not e.keywords:
+            a, b = self.expr(e.args[0]), self.expr(e.args[1])
+            if a[2] != "natset" or b[2] != "nat" or a[1] or b[1]: fail(e, "combinations")
+            return (f"(subsets_of_size {b[0]} {a[0]})", False, "natlistlist")
+        if isinstance(e, ast.Call) and isinstance(e.func, ast.Name) and e.func.id == "product" and len(e.args) == 1 and len(e.keywords) == 1 and e.keywords[0].arg == "repeat" \
+                and ast.dump(e.args[0]) == "List(elts=[Constant(value=0), Constant(value=1)], ctx=Load())":
+            k = self.expr(e.keywords[0].value)
+            if k[2] != "nat" or k[1]: fail(e, "product repeat")
+            return (f"(bit_vectors {k[0]})", False, "bitlistlist")
+        # any(set(d) <= set(driver_set) for d in drivers)
+        if isinstance(e, ast.Call) and isinstance(e.func, ast.Name) and e.func.id == "any" and len(e.args) == 1 and isinstance(e.args[0], ast.GeneratorExp):
+            g = e.args[0]
+            if len(g.generators) != 1 or g.generators[0].ifs or not isinstance(g.generators[0].target, ast.Name): fail(e, "any(...)")
+            it = self.expr(g.generators[0].iter)
+            if it[2] != "spacelist" or it[1]: fail(e, "any(...) iterable")
+            v = g.generators[0].target.id
+            c = g.elt
+            def keys_of(x, var):
+                return isinstance(x, ast.Call) and isinstance(x.func, ast.Name) and x.func.id == "set" and len(x.args) == 1 and isinstance(x.args[0], ast.Name) and x.args[0].id == var
+            if not (isinstance(c, ast.Compare) and len(c.ops) == 1 and isinstance(c.ops[0], ast.LtE) and keys_of(c.left, v)
+                    and isinstance(c.comparators[0], ast.Call) and isinstance(c.comparators[0].func, ast.Name) and c.comparators[0].func.id == "set" and len(c.comparators[0].args) == 1):
+                fail(e, "any(...) body")
+            rhs = self.expr(c.comparators[0].args[0])
+            if rhs[2] != "natlist" or rhs[1]: fail(e, "any(...) right-hand side")
+            return (f"(existsb (fun {v} => subset_nat (vars_fixed {v}) {rhs[0]}) {it[0]})", False, "bool")
+        # X.items() <= Y.items(): every fixed value of X is a fixed value of Y
+        if isinstance(e, ast.Compare) and len(e.ops) == 1 and isinstance(e.ops[0], ast.LtE):
+            def items_of_(x):
+                return x.func.value if isinstance(x, ast.Call) and isinstance(x.func, ast.Attribute) and x.func.attr == "items" and not x.args else None
+            if items_of_(e.left) is not None and items_of_(e.comparators[0]) is not None:
+                a, b = self.expr(items_of_(e.left)), self.expr(items_of_(e.comparators[0]))
+                if a[2] != "space" or b[2] != "space" or a[1] or b[1]: fail(e, "items comparison")
+                return (f"(subspace {b[0]} {a[0]})", False, "bool")
+        # {k: inner[k] for k in driver_set}  /  {driver: value for driver, value in zip(driver_set, vals)}
+        if isinstance(e, ast.DictComp) and len(e.generators) == 1 and not e.generators[0].ifs:
+            g = e.generators[0]
+            val = e.value
+            if isinstance(val, ast.Call) and isinstance(val.func, ast.Name) and val.func.id == "cast" and len(val.args) == 2: val = val.args[1]
+            if isinstance(g.target, ast.Name) and isinstance(e.key, ast.Name) and e.key.id == g.target.id and isinstance(val, ast.Subscript) \
+                    and isinstance(val.slice, ast.Name) and val.slice.id == g.target.id and isinstance(val.value, ast.Name):
+                ks, src = self.expr(g.iter), self.expr(val.value)
+                if ks[2] != "natlist" or src[2] != "space" or ks[1] or src[1]: fail(e, "dict comprehension over keys")
+                return (f"(dict_restrict {src[0]} {ks[0]})", True, "space")            # KeyError if a key is missing
+            if isinstance(g.target, ast.Tuple) and len(g.target.elts) == 2 and all(isinstance(t, ast.Name) for t in g.target.elts) \
+                    and isinstance(e.key, ast.Name) and isinstance(val, ast.Name) and [e.key.id, val.id] == [t.id for t in g.target.elts] \
+                    and isinstance(g.iter, ast.Call) and isinstance(g.iter.func, ast.Name) and g.iter.func.id == "zip" and len(g.iter.args) == 2:
+                a, b = self.expr(g.iter.args[0]), self.expr(g.iter.args[1])
+                if a[2] != "natlist" or b[2] != "bitlist" or a[1] or b[1]: fail(e, "dict comprehension over zip")
+                return (f"(assign (nvars N) (combine {a[0]} {b[0]}))", False, "space")
+        if isinstance(e, ast.Call) and isinstance(e.func, ast.Name) and e.func.id == "len" and len(e.args) == 1 and not e.keywords:
+            a = self.expr(e.args[0])
+            if a[2] == "space": return self.map1(a, lambda x: f"(count_fixed {x})", "nat")
+        if isinstance(e, ast.Call) and isinstance(e.func, ast.Name) and e.func.id == "find_drivers":
+            kw = {k.arg: k.value for k in e.keywords}
+            if len(e.args) != 2 or not self.is_net(e.args[0]) or set(kw) != {"strategy", "assume_fixed", "max_drivers_per_succession_node", "forbidden_drivers"}:
+                fail(e, "find_drivers arguments")
+            ts, st, af, md, fb = self.expr(e.args[1]), self.expr(kw["strategy"]), self.expr(kw["assume_fixed"]), self.expr(kw["max_drivers_per_succession_node"]), self.expr(kw["forbidden_drivers"])
+            if [ts[2], st[2], af[2], md[2], fb[2]] != ["space", "strategy", "space", "optnat", "optvarset"] or any(x[1] for x in (ts, st, af, md, fb)): fail(e, "find_drivers argument types")
+            # the model's find_drivers (Control.v; C07): forbidden_drivers=None is the empty set
+            return (f"(find_drivers N {ts[0]} {st[0]} {af[0]} {md[0]} (match {fb[0]} with Some l_ => l_ | None => [] end))", False, "ctl")
+        if isinstance(e, ast.BinOp) and isinstance(e.op, ast.BitOr):
+            a, b = self.expr(e.left), self.expr(e.right)
+            if a[2] == "space" and b[2] == "space":
+                return self.map2(a, b, lambda x, y: f"(space_union {x} {y})", "space")
         if isinstance(e, ast.Dict) and len(e.keys) == 1 and isinstance(e.values[0], ast.Constant) and e.values[0].value in (0, 1) and type(e.values[0].value) is int:
             k = self.expr(e.keys[0])                                            # {var: 0} / {var: 1}
             if k[2] != "nat" or k[1]: fail(e, "dict literal key")
@@ -136,10 +229,58 @@ class Fn(SD.Fn):
         if not stmts:
             return self.nxt()
         s, rest = stmts[0], stmts[1:]
+        nn = self.spec.get("netname", "network")
+        if isinstance(s, ast.If) and not s.orelse and ast.dump(s.test) == f"Call(func=Name(id='isinstance', ctx=Load()), args=[Name(id='{nn}', ctx=Load()), Name(id='BooleanNetwork', ctx=Load())], keywords=[])" \
+                and len(s.body) == 1 and ast.dump(s.body[0]) == f"Assign(targets=[Name(id='{nn}', ctx=Store())], value=Call(func=Name(id='AsynchronousGraph', ctx=Load()), args=[Name(id='{nn}', ctx=Load())], keywords=[]))":
+            return self.block(rest)
+        if isinstance(s, ast.Expr) and isinstance(s.value, ast.Call) and isinstance(s.value.func, ast.Attribute) and isinstance(s.value.func.value, ast.Name) \
+                and self.locs.get(s.value.func.value.id) == "ctllist" and s.value.func.attr == "append" and len(s.value.args) == 1 and not s.value.keywords:
+            name = s.value.func.value.id
+            self.need_state(name, s)
+            a = self.expr(s.value.args[0])
+            if a[2] != "ctl" or a[1]: fail(s, "append element")
+            return self.guard(f"({name} ++ [{a[0]}])", False, name, self.block(rest))
+        if isinstance(s, ast.Expr) and isinstance(s.value, ast.Call) and isinstance(s.value.func, ast.Attribute) and isinstance(s.value.func.value, ast.Name) \
+                and self.locs.get(s.value.func.value.id) == "space" and s.value.func.attr == "update" and len(s.value.args) == 1 and not s.value.keywords:
+            name = s.value.func.value.id
+            self.need_state(name, s)
+            a = self.expr(s.value.args[0])
+            if a[2] != "space" or a[1]: fail(s, "update argument")
+            return self.guard(f"(space_union {name} {a[0]})", False, name, self.block(rest))          # d.update(e): e's values win
         # if isinstance(network, BooleanNetwork): network = AsynchronousGraph(network)   -- the network is the model's N either way
         if isinstance(s, ast.If) and not s.orelse and ast.dump(s.test) == "Call(func=Name(id='isinstance', ctx=Load()), args=[Name(id='network', ctx=Load()), Name(id='BooleanNetwork', ctx=Load())], keywords=[])" \
                 and len(s.body) == 1 and ast.dump(s.body[0]) == "Assign(targets=[Name(id='network', ctx=Store())], value=Call(func=Name(id='AsynchronousGraph', ctx=Load()), args=[Name(id='network', ctx=Load())], keywords=[]))":
             return self.block(rest)
+        # if X is None: X = E on an optional parameter: from here on X has the plain type
+        OPT = {"optnat": "nat", "optspace": "space", "optvarset": "natset"}
+        if isinstance(s, ast.If) and not s.orelse and len(s.body) == 1 and isinstance(s.test, ast.Compare) and isinstance(s.test.left, ast.Name) \
+                and self.env.get(s.test.left.id) in OPT and s.test.left.id in dict(self.spec["args"]) and isinstance(s.test.ops[0], ast.Is) \
+                and isinstance(s.test.comparators[0], ast.Constant) and s.test.comparators[0].value is None \
+                and isinstance(s.body[0], ast.Assign) and isinstance(s.body[0].targets[0], ast.Name) and s.body[0].targets[0].id == s.test.left.id:
+            x = s.test.left.id
+            plain = OPT[self.env[x]]
+            t = self.expr(s.body[0].value, want=plain)
+            if t[2] != plain and not (plain == "natset" and t[2] == "natset"): fail(s, "default of an optional parameter")
+            if t[1]: fail(s, "raising default")
+            self.env[x] = plain
+            return f"(let {x} := match {x} with None => {t[0]} | Some v_ => v_ end in {self.block(rest)})"
+        if isinstance(s, ast.Raise):
+            if not (isinstance(s.exc, ast.Call) and isinstance(s.exc.func, ast.Name) and s.exc.func.id == "ValueError"): fail(s, "raise")
+            return "(SRaise sd_ (RRaised ErrAssert))"
+        if isinstance(s, ast.For) and isinstance(s.target, ast.Name) and self.spec["loopvars"].get(s.target.id) in ("natlist", "bitlist") and not s.orelse:
+            it = self.expr(s.iter)
+            if it[2] != {"natlist": "natlistlist", "bitlist": "bitlistlist"}[self.spec["loopvars"][s.target.id]] or it[1]: fail(s, "loop iterable")
+            body = self.block(s.body)
+            head = (f"(s_for {it[0]} (fun {s.target.id} sd_ (st_ : {self.st_ty()}) => let {self.st_pat()} := st_ in "
+                    f"({body} : {self.flow_ty()})) sd_ {self.st_tuple()})")
+            return self.seq(head, rest)
+        if isinstance(s, ast.Expr) and isinstance(s.value, ast.Call) and isinstance(s.value.func, ast.Attribute) and isinstance(s.value.func.value, ast.Name) \
+                and self.locs.get(s.value.func.value.id) == "spacelist" and s.value.func.attr == "append" and len(s.value.args) == 1 and not s.value.keywords:
+            name = s.value.func.value.id
+            self.need_state(name, s)
+            a = self.expr(s.value.args[0])
+            if a[2] != "space" or a[1]: fail(s, "append element")
+            return self.guard(f"({name} ++ [{a[0]}])", False, name, self.block(rest))
         # if LDOIs is None: LDOIs = find_single_node_LDOIs(network): from here on the table is there
         if isinstance(s, ast.If) and not s.orelse and len(s.body) == 1 and isinstance(s.test, ast.Compare) and isinstance(s.test.left, ast.Name) \
                 and self.env.get(s.test.left.id) == "optldois" and isinstance(s.test.ops[0], ast.Is) and isinstance(s.body[0], ast.Assign) \
@@ -231,11 +372,11 @@ class Fn(SD.Fn):
         return super().block(stmts)
 
 def translate(group):
-    fname = "PySrcPerc.v" if group == "perc" else "PySrcDrivers.v"
-    parts = [f"(* {fname} -- GENERATED by tools/py2coq_perc.py from the current source of /repo/biobalm/" + ("space_utils.py" if group == "perc" else "drivers.py") + "; do not edit.",
+    fname = {"perc": "PySrcPerc.v", "drivers": "PySrcDrivers.v", "control": "PySrcControl.v"}[group]
+    parts = [f"(* {fname} -- GENERATED by tools/py2coq_perc.py from the current source of /repo/biobalm/" + {"perc": "space_utils.py", "drivers": "drivers.py", "control": "control.py"}[group] + "; do not edit.",
              "   Embedding: PyLibSd.v, PyLibPerc.v.  PySrcPercFacts.v / PySrcDriversFacts.v prove the generated functions equal to the model's (Strict.v). *)",
              "From Coq Require Import List Bool Arith.", "Import ListNotations.",
-             "From BB Require Import BN Brute Diagram Strict PyLib PyLibSd PyLibPerc" + (" PyLibDrivers PySrcPerc" if group == "drivers" else "") + ".", ""]
+             "From BB Require Import BN Brute Diagram Strict PyLib PyLibSd PyLibPerc" + (" PyLibDrivers PySrcPerc" if group == "drivers" else "") + (" PyLibCore Blocks Control PyLibControl" if group == "control" else "") + ".", ""]
     for spec in FUNCS:
         if spec.get("group", "perc") != group: continue
         name = spec["name"]
@@ -249,7 +390,7 @@ def translate(group):
             raise Unsupported(f"{name}: signature changed")
         got = dict(zip([x.arg for x in a.args][len(a.args) - len(a.defaults):], a.defaults))
         want = spec.get("defaults", {})
-        if set(got) != set(want) or any(not (isinstance(got[k], ast.Constant) and got[k].value is v) for k, v in want.items()):
+        if set(got) != set(want) or any(not (isinstance(got[k], ast.Constant) and got[k].value == v and type(got[k].value) is type(v)) for k, v in want.items()):
             raise Unsupported(f"{name}: default values changed")
         fn = Fn(spec)
         fn.state = SD.assigned_locals(node, spec["locs"])
@@ -257,7 +398,7 @@ def translate(group):
             if isinstance(n, ast.Assign) and isinstance(n.targets[0], ast.Subscript) and isinstance(n.targets[0].value, ast.Name):
                 v = n.targets[0].value.id
                 if v in spec["locs"] and v not in fn.state: fn.state.append(v)
-            if isinstance(n, ast.Call) and isinstance(n.func, ast.Attribute) and n.func.attr in ("remove", "add") and isinstance(n.func.value, ast.Name):
+            if isinstance(n, ast.Call) and isinstance(n.func, ast.Attribute) and n.func.attr in ("remove", "add", "append", "update") and isinstance(n.func.value, ast.Name):
                 v = n.func.value.id
                 if v in spec["locs"] and v not in fn.state: fn.state.append(v)
         body = fn.block(node.body)
@@ -274,7 +415,7 @@ def translate(group):
 
 def main(argv):
     texts, failed = [], []
-    for g, f in (("perc", "PySrcPerc.v"), ("drivers", "PySrcDrivers.v")):
+    for g, f in (("perc", "PySrcPerc.v"), ("drivers", "PySrcDrivers.v"), ("control", "PySrcControl.v")):
         try:
             texts.append((os.path.join(OUTDIR, f), translate(g)))
         except Unsupported as e:
